@@ -31,6 +31,7 @@ var skeletonFuncs = []string{
 	"state.addConnHandler", "state.processFile", "path.alive", "Mux.loadState", "Mux.storeState",
 	"gzipReader.Read", "gzipWriter.Close", "CompressorGzip.Compress", "CompressorGzip.Decompress", "streamGRPC.compress", "streamGRPC.decompress",
 	"streamHTTP.SendHeader", "streamGRPC.SendHeader", "muxOptions.unary", "muxOptions.stream", "inPayload", "outPayload",
+	"isStreamError",
 }
 
 func leanIdent(fn string) string {
@@ -141,7 +142,7 @@ var stmtFuncs = []string{
 	"gzipReader.Read", "gzipWriter.Close", "CompressorGzip.Compress", "CompressorGzip.Decompress", "streamGRPC.compress", "streamGRPC.decompress",
 	"streamGRPC.RecvMsg", "streamGRPC.SendMsg", "streamHTTP.readMsg", "streamHTTP.decodeRequestArgs", "streamHTTP.SendMsg", "createConnHandler",
 	"Mux.serveHTTP", "Mux.serveGRPC", "streamHTTP.RecvMsg", "streamHTTP.SendHeader", "streamGRPC.SendHeader", "streamWS.RecvMsg", "streamWS.SendMsg",
-	"muxOptions.unary", "muxOptions.stream", "inPayload", "outPayload",
+	"muxOptions.unary", "muxOptions.stream", "inPayload", "outPayload", "isStreamError",
 }
 
 // writerOrder: the order of lock / load / modify / store / unlock in a writer function
